@@ -430,9 +430,6 @@ func pTighten(args []string) string {
 	if pol != polHint {
 		return "skip"
 	}
-	if len(t.Regions) > 12 {
-		return "skip" // sort.Slice is only known to be stable up to 12 elements
-	}
 	// the unedited image must save (needs a firmware volume in the BIOS region, tiling ...)
 	base0, r0 := save(f)
 	if r0 != "ok" {
@@ -817,9 +814,29 @@ func genImage(r *Rng, class int) (img []byte, pol byte) {
 	// region sizes in blocks
 	meBlocks := r.Pick(1, 2, 2, 3, 3, 4, 5)
 	biosBlocks := r.Pick(1, 1, 2, 2, 3)
-	pre := r.Pick(0, 0, 0, 1, 2)   // blocks between the descriptor and the ME region
-	mid := 0                       // blocks between ME and BIOS
-	post := r.Pick(0, 0, 0, 1, 2)  // blocks after the BIOS region
+	pre := r.Pick(0, 0, 0, 1, 2)  // blocks between the descriptor and the ME region
+	mid := 0                      // blocks between ME and BIOS
+	post := r.Pick(0, 0, 0, 1, 2) // blocks after the BIOS region
+	var preL, postL []int         // the same, as separate stretches (each may become a region)
+	if pre > 0 {
+		preL = []int{pre}
+	}
+	if post > 0 {
+		postL = []int{post}
+	}
+	many := class == 8 // up to 15 regions: beyond the 12 elements for which sort.Slice is an insertion sort
+	if many {
+		class = r.Pick(0, 0, 3, 5)
+		preL, postL = nil, nil
+		pre, post = r.Range(4, 7), r.Range(4, 6)
+		for k := 0; k < pre; k++ {
+			preL = append(preL, 1)
+		}
+		for k := 0; k < post; k++ {
+			postL = append(postL, 1)
+		}
+		meBlocks = r.Pick(2, 3)
+	}
 	biosFirst := false
 	switch class {
 	case 1:
@@ -872,8 +889,8 @@ func genImage(r *Rng, class int) (img []byte, pol byte) {
 	cur := 1
 	take := func(k int) (int, int) { b := cur; cur += k; return b, cur - 1 }
 	var other [][2]int
-	if pre > 0 {
-		b, l := take(pre)
+	for _, k := range preL {
+		b, l := take(k)
 		other = append(other, [2]int{b, l})
 	}
 	var meB, meL, biB, biL int
@@ -892,8 +909,8 @@ func genImage(r *Rng, class int) (img []byte, pol byte) {
 		}
 		biB, biL = take(biosBlocks)
 	}
-	if post > 0 {
-		b, l := take(post)
+	for _, k := range postL {
+		b, l := take(k)
 		other = append(other, [2]int{b, l})
 	}
 	putSlot(img, rs, 0, slotT{uint16(biB), uint16(biL)})
@@ -902,10 +919,10 @@ func genImage(r *Rng, class int) (img []byte, pol byte) {
 	used := map[int]bool{}
 	for _, o := range other {
 		fill(r, img[o[0]*blk:(o[1]+1)*blk], r.Intn(3), pol)
-		if r.Chance(2, 3) {
+		if many || r.Chance(2, 3) {
 			s := 2 + r.Intn(13)
-			if nr != 0 && nr <= 15 && r.Bool() {
-				s = 2 + r.Intn(13)
+			for many && used[s] {
+				s = 2 + (s-1)%13
 			}
 			if !used[s] {
 				used[s] = true
@@ -918,7 +935,7 @@ func genImage(r *Rng, class int) (img []byte, pol byte) {
 	var o meOpts
 	o.tailDirtAt = -1
 	o.fptAt = r.Pick(16, 16, 16, 0, 0x100)
-	ne := r.Pick(0, 1, 2, 3, 5, 8)
+	ne := r.Pick(0, 1, 1, 2, 3, 5, 8)
 	limitEnd := len(me)
 	// choose where the last partition ends
 	endAt := 0
@@ -1065,7 +1082,7 @@ func gen(r *Rng, tier string, emit Emit) {
 	}
 	for it := 0; it < n; it++ {
 		rr := r.Fork(uint64(it))
-		class := rr.Pick(0, 0, 0, 0, 1, 2, 3, 3, 4, 5, 6, 7)
+		class := rr.Pick(0, 0, 0, 0, 0, 0, 1, 2, 3, 3, 4, 5, 6, 7, 8)
 		img, pol := genImage(rr, class)
 		e := encImg(img)
 		emit("C", "parse", e)
